@@ -245,7 +245,14 @@ func runC10(rc *RunCtx, redirects bool) {
 	cfg.Concurrency = []int{1, 3}[t.Choose(2, "concurrency")]
 	cfg.StartHTTP = t.Bool(1, 6, "start-http")
 
-	w := NewWorld(rc, sim.Faults{})
+	// transient server trouble makes the client send requests again (the
+	// verify loop re-sends the very request object it built at first)
+	var f10 sim.Faults
+	f10.Verify5xx = pickRate(t, "verify5xx", 1, 3)
+	f10.Put5xx = pickRate(t, "put5xx", 1, 6)
+	f10.Get5xx = pickRate(t, "get5xx", 1, 6)
+	f10.Batch5xx = pickRate(t, "batch5xx", 1, 8)
+	w := NewWorld(rc, f10)
 	s := w.S
 	s.Mode = cfg.Mode
 	srv := w.Srv
@@ -310,6 +317,11 @@ func runC10(rc *RunCtx, redirects bool) {
 	}
 	cl := w.NewClient(0, filepath.Join(rc.Dir, "c0"), extra)
 	cl.GitEnv["remote.origin.url"] = remoteURL
+	// with http.extraHeader configured every request is cloned before it is
+	// sent; without it the request object built by the caller is the one on the wire
+	if t.Bool(1, 2, "no-extra-header-configured") {
+		delete(cl.GitEnv, "http.extraheader")
+	}
 	var helper *recHelper
 	switch cfg.Source {
 	case "helper", "multistage":
